@@ -23,8 +23,8 @@ CLAIMED = {
    note="This decides only the part of C11 that has a symbolic dimension. Outside (not decided): validity of the schema files as JSON Schema and their references, struct-level constraints (required members, enumerations, additionalProperties) which come from reflection over struct tags, conformance of whole serialised documents, uuid and uri formats, other leaf types. Defect found and fixed: 629780d (years outside 0-9999).",
    ref="DESIGN.md 10.3, 10.7"),
  "C12": dict(
-   text="Bounded model checking of rate selection with z3: for every shipped regime x category x rate key x qualifier context (tables imported natively from the initialised registry of the current tree) and for EVERY valid civil date 1900..2100 (symbolic year/month/day) the solver shows RateDef.Value and Combo.prepareRate return the applicable value with the latest start date on or before the date (none => error, exempt => no percent, surcharge copied); a generic lemma over arbitrary 1..3-value tables with symbolic dates shows the order check admits only strictly descending tables and Value is latest-on-or-before for them.",
-   note="Assumes native import by reflection is faithful, go/ssa faithful, z3 sound. Outside: value-date/issue-date choice in bill.calculate; ordering of tag/extension-qualified values (not checked by the code either). Defects found and fixed: start date exclusive (1536397), nil Since panic (d50e370).",
+   text="Bounded model checking of rate selection with z3: for every shipped regime x category x rate key x qualifier context (tables imported natively from the initialised registry of the current tree) and for EVERY valid civil date 1900..2100 (symbolic year/month/day) the solver shows RateDef.Value and Combo.prepareRate return the applicable value with the latest start date on or before the date (none => error, exempt => no percent, surcharge copied); a generic lemma over arbitrary 1..3-value tables with symbolic dates shows the order check admits only strictly descending tables and Value is latest-on-or-before for them; at document level, for every pair of valid issue / value dates (symbolic, 1990..2030) and every dated VAT key of ES, PT and FR, bill.calculate gives the line the value in force on the value date when there is one, otherwise on the issue date.",
+   note="Assumes native import by reflection is faithful, go/ssa faithful, z3 sound. Outside: ordering of tag/extension-qualified values (not checked by the code either). Defects found and fixed: start date exclusive (1536397), nil Since panic (d50e370).",
    ref="DESIGN.md 5 (C12)"),
  "C20": dict(
    text="Bounded model checking of tax.Total Merge/Negate/Clone and bill.Payment.calculate with z3 over a family of summary shapes (1-2 rate groups from six kinds incl. surcharges, exempt and extension-qualified rows, optional category surcharge, optional retained category) with ALL amounts symbolic: component-wise sums per category and rate group in both operand orders, sign flip of every amount incl. surcharges, merge-with-negation is zero, operands frozen (no store into an operand, result shares no mutable cell), payment total = sum of debit - credit converted with the declared rate, payment tax summary = merge of the documents' summaries.",
